@@ -1,18 +1,25 @@
 package c20
 
 import (
-	"encoding/json"
 	"testing"
-	"time"
 
 	"pgregory.net/rapid"
 
 	"go.opentelemetry.io/collector/verifharness/vt"
 )
 
-// The probe check re-observes, in a child process, the listed non-terminating
-// shape that the main pass excludes by construction: a component reports a
-// FatalError status while Collector.Run is not sitting in its select loop.
+// Targeted regression check for the repaired defect "Run hangs when a component
+// reports FatalError while Run is not sitting in its select loop" (signature
+// hang/fatal-error-reported-outside-run-loop): small scripts in which the
+// report is made from inside a component's own Start/Shutdown, or from the
+// component's goroutine while another component is inside Start/Shutdown, or
+// together with another stop reason - once, twice by the same component, or by
+// two components.  They are ordinary run-loop scripts (the general generator
+// produces these placements too) evaluated by the same driver and oracle: the
+// report is a stop reason from the moment it is made, Run returns, ends Closed,
+// everything is shut down exactly once.  A return of the defect shows as a run
+// that does not return: the watchdog dumps the script, attributes the hang from
+// the goroutine dump and leaves the process (exit 4 => VIOLATION).
 
 var cProbe = vt.New("C20", "fatal-error-probes")
 
@@ -20,25 +27,40 @@ func goodGen() Gen {
 	return Gen{NRecv: 1, NExp: 1, Kind: "good", ShutFail: -1, PauseStart: -1, PauseShut: -1}
 }
 
-// genProbe draws a risky script.  Every shape is one for which the statement
-// promises that Run returns: the run reaches Running first (generation 0 is
-// good and reports nothing), and the fatal error is an asynchronous component
-// error - one of the five stop reasons - or arrives while the run is being
-// stopped/reloaded by another reason.
+var probeShapes = []string{
+	"sync-start-initial", "sync-start-after-reload", "sync-shutdown-on-stop", "sync-shutdown-on-reload", "sync-both",
+	"async-in-start-initial", "async-in-start-after-reload", "async-in-shutdown-on-reload", "async-in-shutdown-on-stop",
+	"async-together-with-stop", "async-together-with-reload",
+}
+
 func genProbe(t *rapid.T) Script {
 	g0, g1 := goodGen(), goodGen()
 	g0.Proc, g1.Proc = rapid.Bool().Draw(t, "proc0"), rapid.Bool().Draw(t, "proc1")
+	g0.NExp = 1 + uni(t, "nexp0", 2)
 	g1.NRecv = 1 + uni(t, "nrecv1", 2)
-	s := Script{Final: Act{K: "shutdown", N: 1}}
+	s := Script{Final: Act{K: "shutdown", N: 1}, Post: uni(t, "post", 2)}
 	trigger := Act{K: oneOf(t, "trigger", []string{"change", "sighup"})}
 	stop := genAct(t, "stop", []string{"shutdown", "sigint", "sigterm", "cancel", "watcherr"})
 	comp := uni(t, "comp", 4)
-	shape := oneOf(t, "shape", []string{
-		"sync-start-after-reload", "sync-shutdown-on-stop", "sync-shutdown-on-reload",
-		"async-in-start-after-reload", "async-in-shutdown-on-reload", "async-in-shutdown-on-stop",
-		"async-together-with-stop",
-	})
-	switch shape {
+	// one report, the same component twice, or two components
+	reports := func(self bool) []Act {
+		first := Act{K: "fatal", N: comp}
+		if self {
+			first.N = -1
+		}
+		switch uni(t, "reports", 3) {
+		case 0:
+			return []Act{first}
+		case 1:
+			return []Act{first, first}
+		default:
+			return []Act{first, {K: "fatal", N: comp + 1}}
+		}
+	}
+	switch oneOf(t, "shape", probeShapes) {
+	case "sync-start-initial":
+		g0.FatalSync, g0.FatalComp = "start", comp
+		s.Gens = []Gen{g0}
 	case "sync-start-after-reload":
 		g0.AtRunning = []Act{trigger}
 		g1.FatalSync, g1.FatalComp = "start", comp
@@ -51,53 +73,42 @@ func genProbe(t *rapid.T) Script {
 		g0.AtRunning = []Act{trigger}
 		g0.FatalSync, g0.FatalComp = "shutdown", comp
 		s.Gens = []Gen{g0, g1}
+	case "sync-both":
+		g0.AtRunning = []Act{trigger}
+		g1.FatalSync, g1.FatalComp = "both", comp
+		s.Gens = []Gen{g0, g1}
+	case "async-in-start-initial":
+		g0.PauseStart = comp
+		g0.AtStart = reports(true)
+		s.Gens = []Gen{g0}
 	case "async-in-start-after-reload":
 		g0.AtRunning = []Act{trigger}
 		g1.PauseStart = comp
-		g1.AtStart = []Act{{K: "fatal", N: -1}}
+		g1.AtStart = reports(true)
 		s.Gens = []Gen{g0, g1}
 	case "async-in-shutdown-on-reload":
 		g0.AtRunning = []Act{trigger}
 		g0.PauseShut = comp
-		g0.AtShut = []Act{{K: "fatal", N: -1}}
+		g0.AtShut = reports(true)
 		s.Gens = []Gen{g0, g1}
 	case "async-in-shutdown-on-stop":
 		g0.AtRunning = []Act{stop}
 		g0.PauseShut = comp
-		g0.AtShut = []Act{{K: "fatal", N: -1}}
+		g0.AtShut = reports(true)
 		s.Gens = []Gen{g0}
-	default: // async-together-with-stop: no pause at all, the two stop reasons simply arrive together (schedule decides)
-		g0.AtRunning = []Act{stop, {K: "fatal", N: comp}}
+	case "async-together-with-stop":
+		// no pause at all: the two stop reasons simply arrive together, the report first (afterwards Run may be gone)
+		g0.AtRunning = append(reports(false), stop)
 		s.Gens = []Gen{g0}
+	default: // async-together-with-reload
+		g0.AtRunning = append([]Act{trigger}, reports(false)...)
+		s.Gens = []Gen{g0, g1}
 	}
 	return s
 }
 
-func runProbe(s Script) (bool, string, *vt.Finding) {
-	kb, _ := json.Marshal(s)
-	key := string(kb)
-	r := s.risk()
-	if r == "" {
-		return false, key, nil
-	}
-	f, hung, err := cRun.Child("TestRunLoop", s, 40*time.Second)
-	if err != nil {
-		cProbe.Inconclusive("probe child: %v", err)
-		return false, key, nil
-	}
-	switch {
-	case hung:
-		// the child's own watchdog should have answered first
-		cProbe.Class("probe:" + r + ":child-killed")
-		f = vt.Failf("hang/child-killed", "the probe child had to be killed (script shape %s)", r)
-	case f == nil:
-		cProbe.Class("probe:" + r + ":returned-and-held")
-	default:
-		cProbe.Class("probe:" + r + ":" + f.Sig)
-	}
-	return true, key, f
+func TestFatalErrorProbes(t *testing.T) {
+	vt.Run(t, cProbe, vt.N(600, 20000), genProbe, run(cProbe))
 }
 
-func TestFatalErrorProbes(t *testing.T) {
-	vt.Run(t, cProbe, vt.N(8, 60), genProbe, runProbe)
-}
+func init() { cProbe.ReplayRepeat = 10 }
